@@ -27,7 +27,7 @@ def conflict_histories(ctx, n):
                     ann.update(rng.choice(CONFLICT_ANN))
                 t = rng.choice(list(U.ING) + ["oauth"]) if rng.random() < 0.9 else U.EXT_ING[rng.choice(list(U.EXT_ING))]
                 if t == "oauth":
-                    t = dict(label="oauth", rules=[U.R(rng.choice([U.H1, U.H2]), U.P("/oauth2", "s2"), U.P("/", "s1"))])
+                    t = dict(label="oauth", rules=[U.R(rng.choice([U.H1, U.H2]), U.P("/oauth2", rng.choice(["s1", "s2"])), U.P("/", "s1"))])
                 op = U.op_ing(slot, t, ann)
                 if rng.random() < 0.3:
                     op["created"] = 1       # equal creation time: the name decides
@@ -67,6 +67,12 @@ def run(ctx):
     q = ctx.quick()
     hs = ctl.tlc_histories(ctx, 120 if q else 3000, maxops=3, maxbatches=2, tag="sim")
     hs += conflict_histories(ctx, 200 if q else 5000)
+    # two applications of one namespace, each with its own oauth2_proxy under /oauth2 (F37)
+    for i in range(4):
+        a = dict(label="oa", rules=[U.R(U.H1, U.P("/oauth2", "s1"), U.P("/", "s1"))])
+        b = dict(label="ob", rules=[U.R(U.H2, U.P("/oauth2", "s2"), U.P("/", "s2"))])
+        ops = U.base_ops() + [U.op_ing(1, a, {"oauth": "oauth2_proxy"}), U.op_ing(2, b, {"oauth": "oauth2_proxy"})]
+        hs.append(dict(id="oauth-two-%d" % i, opt=dict(shards=0, watchwithoutclass=True), steps=[dict(ops=ops)]))
     # regression seeds of the listed finding (same redirect-from on two hosts), so that it is observed on every run
     for i in range(6):
         ops = U.base_ops() + [U.op_ing(1, "t1", {"redirect-from": "old.local"}), U.op_ing(2, "t4", {"redirect-from": "old.local"})]
